@@ -283,6 +283,7 @@ def _warm():
     """imports must not happen under the budget (an interrupted import leaves a half-initialised module behind)"""
     from androguard.core import dex, axml, apk      # noqa
     import apkInspector.headers                     # noqa
+    import androguard.core.resources.public         # noqa  (lazily imported by the AXML parser on the first attribute-id lookup)
     import logging
     logging.disable(logging.CRITICAL)               # apkInspector logs through the stdlib root logger
 
@@ -296,6 +297,12 @@ def judge(name, base, f):
     import contextlib
     with contextlib.redirect_stdout(io.StringIO()):     # the ARSC parser print()s diagnostics
         status, val, ev = run_with_budget(lambda: DRIVERS[kind](buf), B)
+        if status == "budget":
+            # one-time lazy initialisation inside the library (e.g. the system resource-id table that is loaded the first
+            # time an attribute id has to be looked up, a regex cache, a lazily imported module) is charged to whichever
+            # parse happens to trigger it first in this process; it is not work 'bounded by the input'.  A parse that
+            # really does not terminate exceeds the budget again on the immediate second attempt; only that is reported.
+            status, val, ev = run_with_budget(lambda: DRIVERS[kind](buf), B)
     if status == "budget":
         return status, ev, "%s:%s:%s" % (kind, f[0] if f[0] in ("trunc", "cut-last-byte-keep-size") else "overwrite", region_of(name, base, f)), \
             "%s fault %r: parser did not finish within %d events (input %d bytes)" % (name, list(f), B, len(buf))
